@@ -21,7 +21,9 @@ RULE = ("case = 1-2 watcher configurations (numprocesses 0-4, singleton, "
         "time advance}.  Non-trivial = the history contains a death or an "
         "accepted count-changing request AND the settle phase started away "
         "from the target or with work in flight; distinct by hash of the "
-        "whole case.")
+        "whole case.  No history asks for a stop: a watcher that is not "
+        "active at the end, with a live count off its target, is a "
+        "violation too.")
 ASSUMPTIONS = [
     "verdicts are relative to the simulated kernel (vfw/kernel.py), itself "
     "compared with real processes by vfw/conformance.py",
